@@ -62,7 +62,7 @@ fn action(kind: usize, blen: usize) -> Action {
 
 /// the adversarial corpus; deterministic in (seed, index)
 fn gen_case(i: usize, rng: &mut Rng) -> (ConnCase, String) {
-    let fam = i % 12;
+    let fam = i % 13;
     let act = rng.below(5);
     let mut tag = String::new();
     let mut bytes: Vec<u8> = vec![];
@@ -141,6 +141,13 @@ fn gen_case(i: usize, rng: &mut Rng) -> (ConnCase, String) {
             }
             bytes.extend_from_slice(format!("GET /te HTTP/1.1\r\nTE: {}\r\n\r\n", te).as_bytes());
             tag = format!("te{}", n);
+        }
+        12 => {
+            // clients that send a whole request and reset the connection at once, ahead of an
+            // ordinary conversation on the same server
+            verif_harness::connrun::RST_FIRST.store(*rng.pick(&[1usize, 10, 40]), Ordering::SeqCst);
+            bytes.extend_from_slice(b"GET /after-rst HTTP/1.1\r\nHost: x\r\n\r\n");
+            tag = "rst".into();
         }
         10 => {
             // Expect / Connection / version corner cases with odd bytes
